@@ -14,9 +14,13 @@ Reading of the statement in the model (ForML.Model.Fs / ForML.Model.Registry):
 theorems named `…_original_…` are about the latter (counterexamples replayed by the harness, findings C05-F1..F4).
 
 Part 1: single registry calls on arbitrary trees.  Part 2: whole histories, by induction over the events, the calls of
-a step and the micro-operations of a call (lemmas in ForML/Lemmas/C05*.lean).
+a step and the micro-operations of a call (lemmas in ForML/Lemmas/C05*.lean).  Part 3: several writers — interleaved
+histories over any number of long-lived or fresh HANDLES (object chains with what they memoise) in any number of PROCESSES
+(each with its tag cache), at the granularity of registry calls, with process deaths (ForML.Model.RegistryHandles).
+Part 4: the volatile registry (ForML.Model.RegistryVolatile): listing in memory, generations in a temporary directory.
 -/
-import ForML.Lemmas.C05Steps
+import ForML.Lemmas.C05Volatile
+import ForML.Lemmas.C05States
 
 namespace ForML.Registry
 open ForML.Fs
@@ -394,5 +398,444 @@ example : let fs := play Impl.repaired Fs.empty (demoEvents.take 2)
 example : ((exec Impl.repaired (play Impl.repaired Fs.empty (demoEvents.take 2))
     (.publish 1 1 1 (.dir [(0, [9]), (1, [8, 8])]))).calls.head?.bind List.head?)
     = some (.rmtree (packageTmpP 1 1)) := by decide
+
+/-! ## Part 3 — several writers: handles in processes (`Impl.repaired`)
+
+`evs` ranges over *all* lists of handle events: any number of handles (each bound to a project and an explicit or
+implicit release / generation key, each in some process), opened at any time and used for any number of operations —
+publishes, `begin` / `dump` / `commit` of trainings whose registry calls interleave arbitrarily with those of the other
+handles, reads — each operation run to its end or with its process killed at any micro-operation.  What a handle
+remembers (`Level._key` of an implicit key) and what its process has cached (TAGS) is part of the state. -/
+
+/-- the world after an interleaved history -/
+abbrev worldAfter (evs : List HEv) : World := playH Impl.repaired World.empty evs
+
+/-- **C05_handles_never_corrupt**: after any interleaved history of any number of writers — in particular right after
+any process death — every generation a fresh reader lists has a tag that decodes and every state it names is there. -/
+theorem C05_handles_never_corrupt (evs : List HEv) (p v g : Nat)
+    (h : genListed (worldAfter evs).fs p v g = true) :
+    ∃ t, tagOf (worldAfter evs).fs p v g = some t
+      ∧ ∀ s ∈ t.sids, ∃ b, vis (worldAfter evs).fs (stateP p v g s) = some (.file b) := by
+  have hv : genValid (worldAfter evs).fs p v g = true := by
+    simp only [genListed, Bool.and_eq_true] at h; exact h.2
+  obtain ⟨t, ht, hs⟩ := (playH_good2 evs).good.healthy p v g hv
+  refine ⟨t, ht, fun s hsin => ?_⟩
+  obtain ⟨b, hb⟩ := hs s hsin
+  have hc : t.sids.contains s = true := by simp only [List.contains_iff_mem]; exact hsin
+  exact ⟨b, by simp only [vis, stateP, h, ht, hc, Bool.and_self, if_true]; exact hb⟩
+
+/-- **C05_handles_gap_free**: after any interleaved history the generations of every release are exactly `1 .. n`. -/
+theorem C05_handles_gap_free (evs : List HEv) (p v g : Nat)
+    (h : g ∈ generationsOf (worldAfter evs).fs p v) :
+    1 ≤ g ∧ ∀ g', 1 ≤ g' → g' ≤ g → g' ∈ generationsOf (worldAfter evs).fs p v := by
+  rw [mem_generationsOf] at h
+  refine ⟨?_, fun g' h1 h2 => ?_⟩
+  · simp only [genValid, Bool.and_eq_true, decide_eq_true_eq] at h; exact h.1.1
+  · rw [mem_generationsOf]; exact (playH_good2 evs).good.gapfree p v g h g' h1 h2
+
+/-- **C05_handles_crash_consistent**: after any interleaved history, whatever the next event — any operation through
+any handle (long-lived, with whatever it has memoised, or fresh), run to its end, raising, or with its process killed
+after any number of micro-operations / inside a write — a fresh reader sees exactly the previous content, or the operation
+has completed without error and the reader sees its complete result. -/
+theorem C05_handles_crash_consistent (evs : List HEv) (e : HEv) :
+    let w := worldAfter evs
+    ViewEq (applyH Impl.repaired w e).fs w.fs
+      ∨ ∃ h op, (e = .run h op ∨ ∃ k cut, e = .die h op k cut)
+          ∧ (perform Impl.repaired w h op).err = none
+          ∧ (applyH Impl.repaired w e).fs = (perform Impl.repaired w h op).w.fs := by
+  intro w
+  have g2 : Good2 w.fs := playH_good2 evs
+  have key : ∀ h op x, LeftByAct w.fs (actOf w h op) x →
+      ViewEq x w.fs ∨ ((perform Impl.repaired w h op).err = none ∧ x = (perform Impl.repaired w h op).w.fs) := by
+    intro h op x hl
+    rcases (act_left w.fs g2 _ (actOf_ok w h op) x hl).2 with hv | ⟨he, hx⟩
+    · exact Or.inl hv
+    · cases hpe : (perform Impl.repaired w h op).err with
+      | none => exact Or.inr ⟨rfl, by rw [hx, (perform_act w h op).1]⟩
+      | some e' =>
+        rcases perform_fail w h op (by rw [hpe]; simp) with hne | hidle
+        · exact absurd he hne
+        · left
+          rw [hidle] at hx; simp only [runAct] at hx; rw [hx]; exact ViewEq.refl _
+  cases e with
+  | run h op =>
+    rcases key h op _ (Or.inl (perform_act w h op).1) with hv | ⟨he, hx⟩
+    · exact Or.inl hv
+    · exact Or.inr ⟨h, op, Or.inl rfl, he, hx⟩
+  | die h op k cut =>
+    cases hl : lookupH w.hs h with
+    | none => left; simp only [applyH, hl]; exact ViewEq.refl _
+    | some x =>
+      have hfs : (applyH Impl.repaired w (.die h op k cut)).fs
+          = (runSome w.fs (crashOps (atomsAll (runAct Impl.repaired w.fs (actOf w h op)).calls.flatten) k cut)).1 := by
+        simp only [applyH, hl, killProc_fs, (perform_act w h op).2]
+      rcases key h op _ (Or.inr ⟨k, cut, hfs⟩) with hv | ⟨he, hx⟩
+      · exact Or.inl hv
+      · exact Or.inr ⟨h, op, Or.inr ⟨k, cut, rfl⟩, he, hx⟩
+
+/-- **C05_handles_commit**: after any interleaved history, a successful commit through ANY handle — long-lived or
+fresh, whatever it has memoised, whoever committed since it was opened or since its states were dumped — (i) addresses a
+listed release `v` of the handle's project, (ii) adds generation `nextGen` OF THE TREE AT COMMIT TIME — 1 for an empty
+listing, else above every generation on disk with the number below listed, i.e. (with `C05_handles_gap_free`) one above
+the highest existing one —, listed, (iii) tagged with the accessor's ordinal and exactly the state ids dumped through the
+handle since `begin`, in order, as many as there are nodes, pairwise distinct, (iv) each state holding the bytes staged
+under its id, and (v) every path outside that generation directory — every other generation, tag, state, package — looks
+to a fresh reader byte-for-byte as before. -/
+theorem C05_handles_commit (evs : List HEv) (h : Nat)
+    (hok : (perform Impl.repaired (worldAfter evs) h .commit).err = none) :
+    let w := worldAfter evs
+    let fs' := (perform Impl.repaired w h .commit).w.fs
+    ∃ x ord v, lookupH w.hs h = some x ∧ x.acc = some (ord, x.sids.length) ∧ (resolveRel w.fs x).2 = .ok v
+      ∧ relListed w.fs x.proj v = true
+      ∧ ((generationsOf w.fs x.proj v = [] → nextGen w.fs x.proj v = 1)
+          ∧ (∀ g ∈ generationsOf w.fs x.proj v, g < nextGen w.fs x.proj v)
+          ∧ (generationsOf w.fs x.proj v ≠ [] → nextGen w.fs x.proj v - 1 ∈ generationsOf w.fs x.proj v))
+      ∧ genListed fs' x.proj v (nextGen w.fs x.proj v) = true
+      ∧ tagOf fs' x.proj v (nextGen w.fs x.proj v) = some ⟨ord, x.sids⟩
+      ∧ x.sids.Nodup
+      ∧ (∀ s ∈ x.sids, ∃ b, get w.fs (stagedStateP x.proj v s) = some (.file b)
+          ∧ vis fs' (stateP x.proj v (nextGen w.fs x.proj v) s) = some (.file b))
+      ∧ (∀ key, ¬ (generationP x.proj v (nextGen w.fs x.proj v) <+: key) → vis fs' key = vis w.fs key) := by
+  intro w fs'
+  obtain ⟨x, hl, hpe, hrun, hfs⟩ := perform_ok_plan w h .commit (by intros; simp) (by simp) hok
+  obtain ⟨ord, v, hacc, hres, hact⟩ := plan_commit_ok w.fs x hpe
+  have hlst := (resolveRel_ok w.fs x v hres).1
+  rw [hact] at hrun hfs
+  obtain ⟨c1, c2, c3, c4, c5⟩ := close_ok w.fs (playH_good2 evs) x.proj v ord x.sids hlst hrun
+  refine ⟨x, ord, v, hl, hacc, hres, hlst, nextGen_spec _ _ _, ?_, ?_, c3, ?_, ?_⟩
+  · show genListed fs' _ _ _ = true; rw [show fs' = _ from hfs]; exact c1
+  · show tagOf fs' _ _ _ = _; rw [show fs' = _ from hfs]; exact c2
+  · intro s hs; rw [show fs' = _ from hfs]; exact c4 s hs
+  · intro key hk; rw [show fs' = _ from hfs]; exact c5 key hk
+
+/-- **C05_handles_dump**: a successful dump through any handle stages exactly the given bytes under the drawn id in the
+stage directory of a listed release, leaves every other staged state alone, and changes nothing a reader can see
+(nothing at all outside that stage directory). -/
+theorem C05_handles_dump (evs : List HEv) (h sid : Nat) (b : Bytes)
+    (hok : (perform Impl.repaired (worldAfter evs) h (.dump sid b)).err = none) :
+    let w := worldAfter evs
+    let fs' := (perform Impl.repaired w h (.dump sid b)).w.fs
+    ∃ x v, lookupH w.hs h = some x ∧ (resolveRel w.fs x).2 = .ok v ∧ relListed w.fs x.proj v = true
+      ∧ get fs' (stagedStateP x.proj v sid) = some (.file b)
+      ∧ (∀ s, s ≠ sid → get fs' (stagedStateP x.proj v s) = get w.fs (stagedStateP x.proj v s))
+      ∧ ViewEq fs' w.fs
+      ∧ (∀ key, ¬ (stageP x.proj v <+: key) → get fs' key = get w.fs key) := by
+  intro w fs'
+  obtain ⟨x, hl, hpe, hrun, hfs⟩ := perform_ok_plan w h (.dump sid b) (by intros; simp) (by simp) hok
+  obtain ⟨v, hres, hact⟩ := plan_dump_ok w.fs x sid b hpe
+  have hlst := (resolveRel_ok w.fs x v hres).1
+  rw [hact] at hrun hfs
+  obtain ⟨d1, d2⟩ := write_ok w.fs x.proj v sid b hrun
+  have htree := leftByAct_tree w.fs [fun f => writeOps f x.proj v sid b] _
+    (Or.inl (rfl : (runAct Impl.repaired w.fs (.write x.proj v sid b)).fs = _))
+  obtain ⟨_, hview, hframe⟩ := write_left w.fs _ (playH_good2 evs) x.proj v sid b hlst htree
+  refine ⟨x, v, hl, hres, hlst, ?_, ?_, ?_, ?_⟩
+  · rw [show fs' = _ from hfs]; exact d1
+  · intro s hs; rw [show fs' = _ from hfs]; exact d2 s hs
+  · rw [show fs' = _ from hfs]; exact hview
+  · intro key hk; rw [show fs' = _ from hfs]; exact hframe key hk
+
+/-- **C05_handles_publish**: a successful publish through any (long-lived) project handle: the package's name is the
+handle's project, its version is above every release of that project ON DISK at that moment, the release is listed with
+that package, and every path outside the new release directory looks as before. -/
+theorem C05_handles_publish (evs : List HEv) (h name v : Nat) (pkg : Pkg)
+    (hok : (perform Impl.repaired (worldAfter evs) h (.publish name v pkg)).err = none) :
+    let w := worldAfter evs
+    let fs' := (perform Impl.repaired w h (.publish name v pkg)).w.fs
+    ∃ x, lookupH w.hs h = some x ∧ x.proj = name ∧ (∀ u ∈ releasesOf w.fs name, u < v)
+      ∧ relListed fs' name v = true
+      ∧ pkg.placedAs (vis fs' (packageP name v))
+      ∧ (∀ key, ¬ (releaseP name v <+: key) → vis fs' key = vis w.fs key) := by
+  intro w fs'
+  obtain ⟨x, hl, _, hrun, hfs⟩ := perform_ok_plan w h (.publish name v pkg) (by intros; simp) (by simp) hok
+  have hact : (plan w.fs x (.publish name v pkg)).act = .publish x.proj name v pkg := rfl
+  rw [hact] at hrun hfs
+  obtain ⟨p1, p2, p3, p4, _, p6⟩ := publish_ok w.fs (playH_good2 evs).good x.proj name v pkg hrun
+  refine ⟨x, hl, p1, p2, ?_, ?_, ?_⟩
+  · rw [show fs' = _ from hfs]; exact p3
+  · rw [show fs' = _ from hfs]; exact p4
+  · intro key hk; rw [show fs' = _ from hfs]; exact p6 key hk
+
+/-- **C05_handles_append_only**: whatever a fresh reader can see after an interleaved history it sees byte-identical
+after any continuation — operations of old and new handles, process deaths at any point. -/
+theorem C05_handles_append_only (evs evs' : List HEv) (key : Path) (n : Node)
+    (h : vis (worldAfter evs).fs key = some n) : vis (worldAfter (evs ++ evs')).fs key = some n := by
+  show vis (playH Impl.repaired World.empty (evs ++ evs')).fs key = some n
+  rw [playH_append]
+  have g2 := playH_good2 evs
+  have h' : vis (playH Impl.repaired World.empty evs).fs key = some n := h
+  generalize playH Impl.repaired World.empty evs = w at h' g2
+  induction evs' generalizing w with
+  | nil => exact h'
+  | cons e r ih =>
+    simp only [playH]
+    exact ih _ (applyH_append_only w g2 e key n h') (applyH_good2 w g2 e)
+
+/-- **C05_handles_cache_coherent**: after any interleaved history every tag any process holds in its (never
+invalidated) TAGS cache is the tag a fresh reader reads for that — still listed — generation. -/
+theorem C05_handles_cache_coherent (evs : List HEv) :
+    ∀ e ∈ (worldAfter evs).tags, genListed (worldAfter evs).fs e.2.1.1 e.2.1.2.1 e.2.1.2.2 = true
+      ∧ tagOf (worldAfter evs).fs e.2.1.1 e.2.1.2.1 e.2.1.2.2 = some e.2.2 := by
+  intro e he
+  obtain ⟨b, hb, hd⟩ := playH_tagsOk evs e he
+  exact tagOf_of_vis _ _ _ _ b _ hb hd
+
+/-- **C05_handles_look**: what a handle reads (`Instance.tag`) — cached or not, however long the handle and its process
+have lived — is the tag a fresh reader reads for the generation the handle is bound to (explicit, remembered, or the
+latest at this moment), a listed generation of a listed release. -/
+theorem C05_handles_look (evs : List HEv) (h : Nat) (t : Tag)
+    (hlook : (perform Impl.repaired (worldAfter evs) h .look).look = some (some t)) :
+    let w := worldAfter evs
+    ∃ x v g, lookupH w.hs h = some x ∧ (resolveRel w.fs x).2 = .ok v
+      ∧ (resolveGen w.fs x.proj v (resolveRel w.fs x).1).2 = .ok (some g)
+      ∧ genListed w.fs x.proj v g = true ∧ tagOf w.fs x.proj v g = some t := by
+  intro w
+  simp only [perform] at hlook
+  cases hl : lookupH w.hs h with
+  | none => rw [hl] at hlook; simp at hlook
+  | some x =>
+    rw [hl] at hlook
+    simp only at hlook
+    rw [(lookOn_eq w h x).2.2.2.2.2] at hlook
+    obtain ⟨v, g, _, h1, h2, h3, h4⟩ := lookTag_sound w (playH_tagsOk evs) h x t hlook
+    exact ⟨x, v, g, rfl, h1, h2, h3, h4⟩
+
+/-- **C05_handles_states_coherent**: after any interleaved history every state any process holds in its (never
+invalidated) STATES cache is the state a fresh reader reads. -/
+theorem C05_handles_states_coherent (evs : List HEv) :
+    ∀ e ∈ (worldAfter evs).states,
+      vis (worldAfter evs).fs (stateP e.2.1.1 e.2.1.2.1 e.2.1.2.2.1 e.2.1.2.2.2) = some (.file e.2.2) :=
+  playH_statesOk evs
+
+/-- **C05_handles_read_states**: the states a handle loads after the tag (`State.load` → `Generation.get` through the
+STATES cache) are, in the tag's order, exactly the bytes a fresh reader reads for the generation the handle is bound to —
+each of them a visible file. -/
+theorem C05_handles_read_states (evs : List HEv) (h : Nat) (t : Tag)
+    (hlook : (perform Impl.repaired (worldAfter evs) h .look).look = some (some t)) :
+    let w := worldAfter evs
+    ∃ x v g, lookupH w.hs h = some x ∧ boundGen w.fs x = some (v, g) ∧ tagOf w.fs x.proj v g = some t
+      ∧ lookStates w h = t.sids.map (fun s => visBytes w.fs (stateP x.proj v g s))
+      ∧ ∀ s ∈ t.sids, ∃ b, vis w.fs (stateP x.proj v g s) = some (.file b) := by
+  intro w
+  simp only [perform] at hlook
+  cases hl : lookupH w.hs h with
+  | none => rw [hl] at hlook; simp at hlook
+  | some x =>
+    rw [hl] at hlook
+    simp only at hlook
+    rw [(lookOn_eq w h x).2.2.2.2.2] at hlook
+    obtain ⟨v, g, hb, _, _, hgl, htag⟩ := lookTag_sound w (playH_tagsOk evs) h x t hlook
+    have hst := listed_states w.fs (playH_good2 evs).good x.proj v g t hgl htag
+    refine ⟨x, v, g, rfl, hb, htag, ?_, fun s hs => (hst s hs).imp fun b hb' => hb'.1⟩
+    simp only [lookStates, hl, hlook, hb]
+    exact (readStates_ok w.fs x.proc x.proj v g t.sids w.states hst (playH_statesOk evs)).2
+
+/-- **C05_handles_dumps_stay_staged**: along any interleaved history in which every dump draws a fresh state id (uuid4),
+for every handle with a training in progress — states dumped since `begin`, not yet committed — every dumped state is
+still staged, byte for byte, in the stage directory of the release the handle is bound to: whatever the other handles
+did in between (dumps, commits, publishes, process deaths at any point). -/
+theorem C05_handles_dumps_stay_staged (evs : List HEv) (nd : (dumpSids evs).Nodup) (h : Nat) (x : Handle)
+    (hl : lookupH (worldAfter evs).hs h = some x) (hd : x.done = false) :
+    ∀ sb ∈ x.dumped, ∃ v, x.rel = some v
+      ∧ get (worldAfter evs).fs (stagedStateP x.proj v sb.1) = some (.file sb.2) :=
+  (playH_owed evs nd).staged (h, x) (lookupH_mem _ _ _ hl) hd
+
+/-- **C05_handles_training**: in any interleaved history with fresh state ids, the first successful commit after `begin`
+through a handle adds — as generation `nextGen` of what is on disk at commit time (`C05_handles_commit`) — a generation
+tagged with exactly the ids of the states dumped through THAT handle since `begin`, in dump (= actor) order, each state
+holding exactly the bytes handed to that dump: no state of another writer, nothing lost, whatever interleaved. -/
+theorem C05_handles_training (evs : List HEv) (nd : (dumpSids evs).Nodup) (h : Nat) (x : Handle)
+    (hl : lookupH (worldAfter evs).hs h = some x) (hd : x.done = false)
+    (hok : (perform Impl.repaired (worldAfter evs) h .commit).err = none) :
+    let w := worldAfter evs
+    let fs' := (perform Impl.repaired w h .commit).w.fs
+    ∃ ord v, x.acc = some (ord, x.dumped.length) ∧ (resolveRel w.fs x).2 = .ok v
+      ∧ genListed fs' x.proj v (nextGen w.fs x.proj v) = true
+      ∧ tagOf fs' x.proj v (nextGen w.fs x.proj v) = some ⟨ord, x.dumped.map (·.1)⟩
+      ∧ ∀ sb ∈ x.dumped, vis fs' (stateP x.proj v (nextGen w.fs x.proj v) sb.1) = some (.file sb.2) := by
+  intro w fs'
+  obtain ⟨x0, ord, v, hl0, hacc, hres, _, _, hgl, htag, _, hst, _⟩ := C05_handles_commit evs h hok
+  have hx : x0 = x := by
+    have : lookupH w.hs h = some x := hl
+    rw [hl0] at this; cases this; rfl
+  subst hx
+  refine ⟨ord, v, by simpa [Handle.sids] using hacc, hres, hgl, htag, ?_⟩
+  intro sb hsb
+  obtain ⟨b, hb, hvis⟩ := hst sb.1 (mem_sids _ _ hsb)
+  obtain ⟨v', hv', hg⟩ := C05_handles_dumps_stay_staged evs nd h x0 hl hd sb hsb
+  have hvv : v = v' := resolveRel_same w.fs x0 v' v hv' hres
+  subst hvv
+  have : (Node.file b) = .file sb.2 := by
+    have h1 : get w.fs (stagedStateP x0.proj v sb.1) = some (.file b) := hb
+    rw [hg] at h1; cases h1; rfl
+  rw [hvis, this]
+
+/-- **C05_handles_generalise_train**: the handle model contains the single-writer model of Part 2 — a training step
+`exec … (.train p v ord sts)` that succeeds on the shared tree of ANY world leaves exactly the tree that a fresh handle on
+release `p/v` (in any process) leaves with `open`, `begin`, one `dump` per state and `commit`, run back to back. -/
+theorem C05_handles_generalise_train (evs : List HEv) (h proc p v ord : Nat) (sts : List (Nat × Bytes))
+    (hok : (exec Impl.repaired (worldAfter evs).fs (.train p v ord sts)).err = none) :
+    (worldAfter (evs ++ .run h (.open proc p (some v) none) :: trainEvents h ord sts)).fs
+      = (exec Impl.repaired (worldAfter evs).fs (.train p v ord sts)).fs := by
+  show (playH Impl.repaired World.empty (evs ++ _)).fs = _
+  rw [playH_append]
+  exact train_simulates _ h proc p v ord sts hok
+
+/-- **C05_handles_generalise_publish**: … and a publish through a handle of project `dp` is the publish step of Part 2
+through project key `dp` — same tree, same refusals. -/
+theorem C05_handles_generalise_publish (evs : List HEv) (h : Nat) (x : Handle) (name v : Nat) (pkg : Pkg)
+    (hl : lookupH (worldAfter evs).hs h = some x) :
+    let o := perform Impl.repaired (worldAfter evs) h (.publish name v pkg)
+    let o' := exec Impl.repaired (worldAfter evs).fs (.publish x.proj name v pkg)
+    o.w.fs = o'.fs ∧ o.calls = o'.calls ∧ (o.err = none ↔ o'.err = none) := by
+  intro o o'
+  have hperf := perform_general (worldAfter evs) h (.publish name v pkg) (by intros; simp) (by simp)
+  rw [hl] at hperf
+  have hplan : plan (worldAfter evs).fs x (.publish name v pkg) = ⟨x, .publish x.proj name v pkg, none⟩ := rfl
+  simp only [hplan] at hperf
+  refine ⟨by show (perform _ _ _ _).w.fs = _; rw [hperf]; rfl, by show (perform _ _ _ _).calls = _; rw [hperf]; rfl, ?_⟩
+  show (perform _ _ _ _).err = none ↔ _
+  rw [hperf]
+  exact actErr_none _ _ _
+
+/-! ### non-vacuity: a long-lived writer and writers that come and go, an interleaved training, a process death -/
+
+/-- handle 0 publishes `0/1`; the long-lived handle 1 (process 1, implicit release) trains; handle 2 (process 2) trains;
+handle 1 dumps its first state, handle 2 trains again in between, handle 1 dumps its second state and commits (number 4
+= one above what is on disk AT THAT MOMENT); handle 3 dies after the first of two moves of its commit; handle 1, still
+alive and bound to release 1 although release 2 was published meanwhile, commits once more and re-uses number 5 -/
+def demoHandles : List HEv :=
+  [.run 0 (.open 0 0 none none), .run 0 (.publish 0 1 (.file [7])),
+   .run 1 (.open 1 0 none none), .run 1 (.begin 1 1), .run 1 (.dump 10 [1]), .run 1 .commit,
+   .run 2 (.open 2 0 (some 1) none), .run 2 (.begin 2 1), .run 2 (.dump 20 [2]), .run 2 .commit,
+   .run 1 (.begin 3 2), .run 1 (.dump 11 [3]),
+   .run 2 (.begin 4 0), .run 2 .commit,
+   .run 1 (.dump 12 [4, 4]), .run 1 .commit, .run 1 .look,
+   .run 0 (.publish 0 2 (.file [8])),
+   .run 3 (.open 3 0 (some 1) none), .run 3 (.begin 5 2), .run 3 (.dump 30 [5]), .run 3 (.dump 31 [6]),
+   .die 3 .commit 2 none, .run 3 .look,
+   .run 1 (.begin 6 1), .run 1 (.dump 13 [9]), .run 1 .commit]
+
+example : let w := worldAfter demoHandles
+    generationsOf w.fs 0 1 = [5, 4, 3, 2, 1] ∧ generationsOf w.fs 0 2 = []
+    ∧ tagOf w.fs 0 1 4 = some ⟨3, [11, 12]⟩ ∧ vis w.fs (stateP 0 1 4 12) = some (.file [4, 4])
+    ∧ tagOf w.fs 0 1 5 = some ⟨6, [13]⟩ ∧ get w.fs (stateP 0 1 5 30) = some (.file [5]) ∧ vis w.fs (stateP 0 1 5 30) = none
+    ∧ (lookupH w.hs 1).map (·.rel) = some (some 1) ∧ (lookupH w.hs 1).map (·.gen) = some (some 4)
+    ∧ lookupH w.hs 3 = none ∧ w.tags = [(1, (0, 1, 4), ⟨3, [11, 12]⟩)] := by decide +kernel
+
+example : (perform Impl.repaired (worldAfter (demoHandles.take 15)) 1 .commit).err = none := by decide +kernel
+/-- the hypotheses of `C05_handles_training` hold there: fresh ids, handle 1 has dumped two states and not committed -/
+example : (dumpSids demoHandles).Nodup ∧ (dumpSids (demoHandles.take 15)).Nodup
+    ∧ (lookupH (worldAfter (demoHandles.take 15)).hs 1).map (fun x => (x.dumped, x.done))
+        = some ([(11, [3]), (12, [4, 4])], false) := by decide +kernel
+example : (perform Impl.repaired (worldAfter (demoHandles.take 23)) 3 .look).err = some .dead := by decide +kernel
+/-- a second commit of the same accessor finds nothing staged (`Level.Invalid`) after creating the generation directory -/
+example : let o := perform Impl.repaired (worldAfter demoHandles) 1 .commit
+    o.err = some .invalid ∧ get o.w.fs (generationP 0 1 6) = some .dir ∧ generationsOf o.w.fs 0 1 = [5, 4, 3, 2, 1] := by
+  decide +kernel
+
+/-! ## Part 4 — the volatile registry (`Impl.repaired`)
+
+`volatile.Registry` keeps projects and releases in memory and inherits `write` / `close` / `generations` from the posix
+registry on a temporary directory in which project and release directories appear only with the first dump or commit.
+`steps` ranges over all lists of publishes and trainings with arbitrary arguments; a call may raise half-way (there is
+no process death to survive: the registry is gone with its process). -/
+
+/-- the volatile registry after a history -/
+abbrev volatileAfter (steps : List Step) : VReg := vPlay Impl.repaired VReg.empty steps
+
+/-- **C05_volatile_never_corrupt**: every generation a reader of the volatile registry lists has a tag that decodes and
+every state it names is there to be read. -/
+theorem C05_volatile_never_corrupt (steps : List Step) (p v g : Nat)
+    (h : vGenListed (volatileAfter steps) p v g = true) :
+    ∃ t, tagOf (volatileAfter steps).fs p v g = some t
+      ∧ ∀ s ∈ t.sids, ∃ b, vVis (volatileAfter steps) (stateP p v g s) = some (.file b) := by
+  have hv : genValid (volatileAfter steps).fs p v g = true := by
+    simp only [vGenListed, Bool.and_eq_true] at h; exact h.2
+  obtain ⟨t, ht, hs⟩ := (vPlay_good steps).g2.good.healthy p v g hv
+  refine ⟨t, ht, fun s hsin => ?_⟩
+  obtain ⟨b, hb⟩ := hs s hsin
+  have hc : t.sids.contains s = true := by simp only [List.contains_iff_mem]; exact hsin
+  exact ⟨b, by simp only [vVis, stateP, h, ht, hc, Bool.and_self, if_true]; exact hb⟩
+
+/-- **C05_volatile_gap_free**: the generations of every release of the volatile registry are exactly `1 .. n`, and a
+tagged generation directory exists only under a listed release. -/
+theorem C05_volatile_gap_free (steps : List Step) (p v g : Nat)
+    (h : g ∈ generationsOf (volatileAfter steps).fs p v) :
+    vRelListed (volatileAfter steps) p v = true ∧ 1 ≤ g
+      ∧ ∀ g', 1 ≤ g' → g' ≤ g → g' ∈ generationsOf (volatileAfter steps).fs p v := by
+  rw [mem_generationsOf] at h
+  refine ⟨(vPlay_good steps).listed p v g h, ?_, fun g' h1 h2 => ?_⟩
+  · simp only [genValid, Bool.and_eq_true, decide_eq_true_eq] at h; exact h.1.1
+  · rw [mem_generationsOf]; exact (vPlay_good steps).g2.good.gapfree p v g h g' h1 h2
+
+/-- **C05_volatile_failed_step_invisible**: a step that raises — refused by a guard, or a registry call failing
+half-way (directories created, states moved) — changes nothing a reader of the volatile registry can see. -/
+theorem C05_volatile_failed_step_invisible (steps : List Step) (s : Step)
+    (h : (vExec Impl.repaired (volatileAfter steps) s).err ≠ none) :
+    VViewEq (vExec Impl.repaired (volatileAfter steps) s).st (volatileAfter steps)
+      ∧ (vExec Impl.repaired (volatileAfter steps) s).st.arts = (volatileAfter steps).arts :=
+  (vExec_view _ (vPlay_good steps) s).1 h
+
+/-- **C05_volatile_train**: a successful training on the volatile registry: the release is listed; generation
+`nextGen` (1, or one above every listed one with the number below listed) appears, listed, tagged with the run's ordinal
+and state ids in order, each state holding the run's bytes; the in-memory listing is unchanged and every path outside
+that generation looks as before. -/
+theorem C05_volatile_train (steps : List Step) (p v ord : Nat) (sts : List (Nat × Bytes))
+    (h : (vExec Impl.repaired (volatileAfter steps) (.train p v ord sts)).err = none) :
+    let st := volatileAfter steps
+    let st' := (vExec Impl.repaired st (.train p v ord sts)).st
+    vRelListed st p v = true ∧ st'.arts = st.arts
+    ∧ ((generationsOf st.fs p v = [] → nextGen st.fs p v = 1)
+        ∧ (∀ g ∈ generationsOf st.fs p v, g < nextGen st.fs p v)
+        ∧ (generationsOf st.fs p v ≠ [] → nextGen st.fs p v - 1 ∈ generationsOf st.fs p v))
+    ∧ vGenListed st' p v (nextGen st.fs p v) = true
+    ∧ tagOf st'.fs p v (nextGen st.fs p v) = some ⟨ord, sts.map (·.1)⟩
+    ∧ (sts.map (·.1)).Nodup
+    ∧ (∀ sb ∈ sts, vVis st' (stateP p v (nextGen st.fs p v) sb.1) = some (.file sb.2))
+    ∧ (∀ key, ¬ (generationP p v (nextGen st.fs p v) <+: key) → vVis st' key = vVis st key) := by
+  intro st st'
+  obtain ⟨h1, h2, h3, h4, h5, h6, h7⟩ := (vExec_view st (vPlay_good steps) (.train p v ord sts)).2 h
+  exact ⟨h1, h2, nextGen_spec _ _ _, h3, h4, h5, h6, h7⟩
+
+/-- **C05_volatile_publish**: a successful publish on the volatile registry: the package's name is the project key it
+was put through, its version is above every listed release of that project, the release becomes listed — with no
+generation —, the temporary directory is untouched and nothing else a reader can see changes. -/
+theorem C05_volatile_publish (steps : List Step) (dp name v : Nat) (pkg : Pkg)
+    (h : (vExec Impl.repaired (volatileAfter steps) (.publish dp name v pkg)).err = none) :
+    let st := volatileAfter steps
+    let st' := (vExec Impl.repaired st (.publish dp name v pkg)).st
+    dp = name ∧ (∀ w ∈ vReleasesOf st name, w < v) ∧ vRelListed st name v = false ∧ vRelListed st' name v = true
+      ∧ st'.fs = st.fs ∧ (∀ p' v', (p', v') ≠ (name, v) → vRelListed st' p' v' = vRelListed st p' v')
+      ∧ (∀ g, vGenListed st' name v g = false) ∧ VViewEq st' st :=
+  (vExec_view _ (vPlay_good steps) (.publish dp name v pkg)).2 h
+
+/-- **C05_volatile_append_only**: whatever a reader of the volatile registry can see after a history it sees
+byte-identical after any continuation (so the never-invalidated tag / state caches stay right there too). -/
+theorem C05_volatile_append_only (steps steps' : List Step) (key : Path) (n : Node)
+    (h : vVis (volatileAfter steps) key = some n) : vVis (volatileAfter (steps ++ steps')) key = some n := by
+  show vVis (vPlay Impl.repaired VReg.empty (steps ++ steps')) key = some n
+  rw [vPlay_append]
+  have gd := vPlay_good steps
+  have h' : vVis (vPlay Impl.repaired VReg.empty steps) key = some n := h
+  generalize vPlay Impl.repaired VReg.empty steps = st at h' gd
+  induction steps' generalizing st with
+  | nil => exact h'
+  | cons s r ih =>
+    simp only [vPlay]
+    exact ih _ (vExec_append_only st gd s key n h') (vExec_good st gd s)
+
+/-- non-vacuity: the demo history on the volatile registry — same generations, no package, project / release
+directories created by the first dump -/
+example : let st := vPlay Impl.repaired VReg.empty demoHistory
+    st.arts = [(0, 2), (1, 1), (0, 3)] ∧ generationsOf st.fs 0 2 = [2, 1] ∧ generationsOf st.fs 0 3 = [1]
+    ∧ tagOf st.fs 0 3 1 = some ⟨2, [1, 2]⟩ ∧ vVis st (stateP 0 3 1 2) = some (.file [5, 6])
+    ∧ get st.fs (packageP 0 2) = none ∧ get st.fs (releaseP 1 1) = none ∧ get st.fs (releaseP 0 2) = some .dir := by
+  decide +kernel
+/-- a zero-state training right after the publish creates project, release and generation directory in the commit -/
+example : let o := vExec Impl.repaired (vExec Impl.repaired VReg.empty (.publish 0 0 1 (.file [1]))).st (.train 0 1 7 [])
+    o.err = none ∧ o.calls = [[.mkdir (projectP 0), .mkdir (releaseP 0 1), .mkdir (generationP 0 1 1),
+      .createEmpty (tagTmpP 0 1 1), .append (tagTmpP 0 1 1) (encodeTag ⟨7, []⟩), .rename (tagTmpP 0 1 1) (tagP 0 1 1)]]
+    ∧ vGenListed o.st 0 1 1 = true := by decide +kernel
 
 end ForML.Registry
